@@ -15,9 +15,28 @@ Expect(calls, i, ph, v) ==
            v2 == IF r # "ok" THEN v ELSE IF op = "put" THEN calls[i].v ELSE IF op = "del" THEN "none" ELSE v
        IN <<out>> \o Expect(calls, i + 1, NextPhase(ph, op), v2)
 Got(calls) == [i \in 1..Len(calls) |-> calls[i].r]
+\* ---- verdicts are confined to what C17 states (valid calls work; a call that returns an error has no effect); where the code merely deviates from the
+\*      strict phase table above (a second Close that succeeds, another error value) the line is reported as a note ----
+Refused(r) == r \in {"ErrNotOpenedYet", "ErrAlreadyOpen", "ErrAlreadyClosed"} \/ (Len(r) >= 4 /\ SubSeq(r, 1, 4) = "err:")
+\* first offending call (0 = none): phase and value as the replies themselves tell them
+RECURSIVE Offence(_, _, _, _)
+Offence(calls, i, ph, v) ==
+  IF i > Len(calls) THEN 0
+  ELSE LET op == calls[i].op
+           r  == calls[i].r
+           off == \/ (ph = "new" /\ op = "open" /\ r # "ok")                      \* whatever was refused before, a new handle opens
+                  \/ (ph = "open" /\ op \in {"put", "del", "close"} /\ r # "ok")  \* valid calls work
+                  \/ (ph = "open" /\ op = "get" /\ r # v)                        \* ... and read what the acknowledged calls wrote, nothing a refused call left
+           ph2 == IF op = "open" /\ r = "ok" THEN "open" ELSE IF op = "close" /\ r = "ok" THEN "closed" ELSE ph
+           v2 == IF ph # "open" \/ r # "ok" THEN v ELSE IF op = "put" THEN calls[i].v ELSE IF op = "del" THEN "none" ELSE v
+       IN IF off THEN i ELSE Offence(calls, i + 1, ph2, v2)
+Check == IF Offence(Ev.calls, 1, "new", "none") # 0 THEN "lifecycle-reply"
+         ELSE IF Got(Ev.calls) # Expect(Ev.calls, 1, "new", "none") THEN "note:strict-phase-table"
+         ELSE "ok"
 Step == /\ l <= Len(Trace) /\ l' = l + 1 /\ UNCHANGED <<phase, val, hist>>
-        /\ IF Got(Ev.calls) = Expect(Ev.calls, 1, "new", "none") THEN nok' = nok + 1 /\ UNCHANGED bad
-           ELSE bad' = Append(bad, [case |-> l, line |-> l, clause |-> "lifecycle-reply", ev |-> ToString(Ev), expected |-> ToString(Expect(Ev.calls, 1, "new", "none"))]) /\ UNCHANGED nok
+        /\ LET c == Check IN
+           IF c = "ok" THEN nok' = nok + 1 /\ UNCHANGED bad
+           ELSE bad' = Append(bad, [case |-> l, line |-> l, clause |-> c, ev |-> ToString(Ev), expected |-> ToString(Expect(Ev.calls, 1, "new", "none"))]) /\ UNCHANGED nok
 TSpec == TInit /\ [][Step]_tvars
 Report == (l = Len(Trace) + 1) => PrintT(<<"VERDICT", nok, ToJson(bad)>>)
 =============================================================================
